@@ -118,6 +118,28 @@ func refOnlyBoolReordered(src, out *refNode) bool {
 	return true
 }
 
+// refOccIndexOf: the position in kids of the same occurrence (first, second, …) of the operand that
+// from[i] is among the operands of from that read the same. Equal operands have equal cost, so a stable
+// sort keeps them in order among themselves.
+func refOccIndexOf(kids []*refNode, from []*refNode, i int) int {
+	canon := refCanonTree(from[i])
+	occ := 0
+	for k := 0; k < i; k++ {
+		if refCanonTree(from[k]) == canon {
+			occ++
+		}
+	}
+	for j, k := range kids {
+		if refCanonTree(k) == canon {
+			if occ == 0 {
+				return j
+			}
+			occ--
+		}
+	}
+	return -1
+}
+
 func refIndexOf(kids []*refNode, canon string) int {
 	for i, k := range kids {
 		if refCanonTree(k) == canon {
@@ -127,7 +149,7 @@ func refIndexOf(kids []*refNode, canon string) int {
 	return -1
 }
 
-// VerifC16: args = [source, x, mode]. Reordering only. mode:
+// VerifC16: args = [source, x, mode, defaults, registration ("" | "undef")]. Reordering only. mode:
 //
 //	"pair"   two cost maps M, M′ differing in the entry of x (c ≤ c′): P1, P3, P5, and P4 when c′ ≥ 10^9
 //	"equal"  all variables share one arbitrary cost: structurally identical siblings keep source order (P2)
@@ -152,8 +174,12 @@ func VerifC16(args []string) {
 	if strings.Contains(dflt, "o") {
 		base["operator"] = small("cost.operator")
 	}
+	reg := "keys"
+	if len(args) > 4 && args[4] == "undef" {
+		reg = "undef" // nothing registered, AllowUndefinedVariable on: the variables are told apart by name only
+	}
 	compile := func(costs map[string]float64) *refNode {
-		conf := w.config("keys", "0001")
+		conf := w.config(reg, "0001")
 		for k, c := range base {
 			conf.CostsMap[k] = c
 		}
@@ -191,10 +217,13 @@ func VerifC16(args []string) {
 					if mode == "equalx" && (refMentions(sn.kids[i], x) || refMentions(sn.kids[j], x)) {
 						continue
 					}
+					if refCanonTree(sn.kids[i]) == refCanonTree(sn.kids[j]) {
+						continue // the same operand twice: indistinguishable in the output
+					}
 					if refSkeleton(sn.kids[i]) == refSkeleton(sn.kids[j]) {
 						vfReach("equal-cost-siblings")
-						oi := refIndexOf(on.kids, refCanonTree(sn.kids[i]))
-						oj := refIndexOf(on.kids, refCanonTree(sn.kids[j]))
+						oi := refOccIndexOf(on.kids, sn.kids, i)
+						oj := refOccIndexOf(on.kids, sn.kids, j)
 						vfAssert(oi >= 0 && oj >= 0 && oi < oj, "P2: operands of equal estimated cost do not keep source order")
 					}
 				}
@@ -246,8 +275,11 @@ func VerifC16(args []string) {
 					continue
 				}
 				ci, cj := refCanonTree(a.kids[i]), refCanonTree(a.kids[j])
+				if ci == cj {
+					continue // the same operand twice: indistinguishable in the output
+				}
 				mi, mj := refMentions(a.kids[i], x), refMentions(a.kids[j], x)
-				bi, bj := refIndexOf(b.kids, ci), refIndexOf(b.kids, cj)
+				bi, bj := refOccIndexOf(b.kids, a.kids, i), refOccIndexOf(b.kids, a.kids, j)
 				vfAssert(bi >= 0 && bj >= 0, "P1: operand multiset changed when a cost was raised")
 				if !mi && mj && i < j {
 					// B (no x) precedes A (mentions x) under M: still so under M′
